@@ -282,37 +282,7 @@ class Version(Part):
 # ----------------------------------------------------------------------------- coercion on channels
 
 
-class _PipeGateway:
-    """A real Gateway object whose peer is the harness: frames are written by hand."""
-
-    def __init__(self):
-        execnet = tree.use()
-        from execnet import gateway_base as gb
-        from execnet.gateway import Gateway
-        from execnet.xspec import XSpec
-
-        r1, w1 = os.pipe()
-        r2, w2 = os.pipe()
-        self.to_gw = os.fdopen(w1, "wb", 0)
-        self.from_gw = os.fdopen(r2, "rb", 0)
-        io_ = gb.Popen2IO(os.fdopen(w2, "wb"), os.fdopen(r1, "rb"), gb.get_execmodel("thread"))
-        self.group = execnet.Group()
-        self.gw = Gateway(io_, XSpec("popen//id=pipegw"))
-        self.group._register(self.gw)
-
-    def inject(self, code, cid, payload=b""):
-        self.to_gw.write(R.ref_frame(code, cid, payload))
-
-    def close(self):
-        import atexit
-
-        try:
-            self.to_gw.close()
-            self.gw.join(10)
-            self.from_gw.close()
-        finally:
-            self.group._unregister(self.gw)
-            atexit.unregister(self.group._cleanup_atexit)
+from vlib.wires import PipeGateway as _PipeGateway  # noqa: E402
 
 
 class Coercion(Part):
